@@ -506,7 +506,7 @@ Definition root_cleanup (fuel : nat) (w : positive) : M unit :=
   if w_isroot cw then (if v_root_keeps_q V then ret tt else free_queue fuel w) else ret tt.
 
 (* tickit_window_unref / tickit_window_destroy and its loop over the children.
-   Not modelled: the [is_destroying] flag of fixes/C08-19 (set when destroy begins; unref does not destroy such a window
+   Not modelled: the [is_destroying] flag of fixes/C08-22 (set when destroy begins; unref does not destroy such a window
    again, and destroy's loop does not unref such a child).  Between the beginning of a window's destruction and its
    free() nothing takes or drops a reference on it unless one of its DESTROY handlers makes calls -- and those are
    outside the model -- so the flag is never looked at while it is set. *)
